@@ -158,16 +158,55 @@ def hexValue (c : Char) : Option Nat :=
   else if 'A' ≤ c && c ≤ 'F' then some (c.toNat - 'A'.toNat + 10)
   else none
 
-/-- `urllib.parse.unquote` for escapes below `%80` (others are left as they are: outside the
-generated URLs, where they would be UTF-8 decoded). -/
-def unquote : List Char → List Char
+/-- Leading `%hh` escapes of a string as bytes, and the rest. -/
+def takeEscapes : List Char → List Nat × List Char
   | '%' :: a :: b :: rest =>
     match hexValue a, hexValue b with
-    | some x, some y =>
-      if x < 8 then Char.ofNat (x * 16 + y) :: unquote rest else '%' :: a :: b :: unquote rest
-    | _, _ => '%' :: unquote (a :: b :: rest)
-  | c :: rest => c :: unquote rest
-  | [] => []
+    | some x, some y => let (bs, r) := takeEscapes rest; ((x * 16 + y) :: bs, r)
+    | _, _ => ([], '%' :: a :: b :: rest)
+  | cs => ([], cs)
+
+/-- UTF-8 decoding with U+FFFD for bytes that do not start a well-formed sequence (`errors='replace'`; Python
+merges some ill-formed runs into one replacement character: only well-formed escapes are generated). -/
+def decodeUtf8Fuel : Nat → List Nat → List Char
+  | 0, _ => []
+  | _, [] => []
+  | fuel + 1, b :: rest =>
+    let bad := Char.ofNat 0xFFFD :: decodeUtf8Fuel fuel rest
+    let cont (x : Nat) : Bool := 0x80 ≤ x && x < 0xC0
+    if b < 0x80 then Char.ofNat b :: decodeUtf8Fuel fuel rest
+    else if 0xC2 ≤ b && b < 0xE0 then
+      match rest with
+      | c :: rest' => if cont c then Char.ofNat ((b - 0xC0) * 64 + (c - 0x80)) :: decodeUtf8Fuel fuel rest' else bad
+      | _ => bad
+    else if 0xE0 ≤ b && b < 0xF0 then
+      match rest with
+      | c :: d :: rest' =>
+        if cont c && cont d then Char.ofNat ((b - 0xE0) * 4096 + (c - 0x80) * 64 + (d - 0x80)) :: decodeUtf8Fuel fuel rest'
+        else bad
+      | _ => bad
+    else if 0xF0 ≤ b && b < 0xF5 then
+      match rest with
+      | c :: d :: e :: rest' =>
+        if cont c && cont d && cont e then
+          Char.ofNat ((b - 0xF0) * 262144 + (c - 0x80) * 4096 + (d - 0x80) * 64 + (e - 0x80)) :: decodeUtf8Fuel fuel rest'
+        else bad
+      | _ => bad
+    else bad
+
+def decodeUtf8 (bytes : List Nat) : List Char := decodeUtf8Fuel bytes.length bytes
+
+/-- `urllib.parse.unquote`: runs of `%hh` escapes are decoded as UTF-8 (`fuel`: the length of the string). -/
+def unquoteFuel : Nat → List Char → List Char
+  | 0, cs => cs
+  | _, [] => []
+  | fuel + 1, '%' :: tl =>
+    match takeEscapes ('%' :: tl) with
+    | ([], _) => '%' :: unquoteFuel fuel tl
+    | (bytes, rest) => decodeUtf8 bytes ++ unquoteFuel fuel rest
+  | fuel + 1, c :: rest => c :: unquoteFuel fuel rest
+
+def unquote (cs : List Char) : List Char := unquoteFuel cs.length cs
 
 /-- `url2pathname(urlparse(url).path)` on POSIX. -/
 def urlFilename (url : String) : String := String.ofList (unquote (urlPath url).toList)
@@ -510,8 +549,8 @@ structure StyleEl where
   target : Sheet                      -- `<link>`: what the fetcher serves for the resolved URL
 
 def isHtmlSpace (c : Char) : Bool := c == ' ' || c == '\t' || c == '\n' || c == '\x0c' || c == '\r'
-/-- Python `str.strip()` on the characters the generators use (ASCII white space). -/
-def isPySpace (c : Char) : Bool := isHtmlSpace c || c == '\x0b'
+/-- Python `str.strip()` on ASCII strings: white space is 0x09–0x0d and 0x1c–0x20. -/
+def isPySpace (c : Char) : Bool := (0x09 ≤ c.toNat && c.toNat ≤ 0x0d) || (0x1c ≤ c.toNat && c.toNat ≤ 0x20)
 
 def stripChars (cs : List Char) : List Char :=
   ((cs.dropWhile isPySpace).reverse.dropWhile isPySpace).reverse
@@ -544,13 +583,38 @@ def styleMedia (mediaAttr : Option String) : List String :=
   let raw := if raw.isEmpty then "all".toList else raw
   (splitOnChar ',' raw).map (fun m => String.ofList (stripChars m))
 
+/-! ### urls.py `iri_to_uri` -/
+
+/-- UTF-8 encoding of one character. -/
+def utf8 (c : Char) : List Nat :=
+  let n := c.toNat
+  if n < 0x80 then [n]
+  else if n < 0x800 then [0xC0 + n / 64, 0x80 + n % 64]
+  else if n < 0x10000 then [0xE0 + n / 4096, 0x80 + n / 64 % 64, 0x80 + n % 64]
+  else [0xF0 + n / 262144, 0x80 + n / 4096 % 64, 0x80 + n / 64 % 64, 0x80 + n % 64]
+
+/-- Bytes `quote(url, safe=b"/:?#[]@!$&'()*+,;=~%")` leaves alone: unreserved and the given `safe`. -/
+def isUriByte (b : Nat) : Bool :=
+  b < 0x80 && (let c := Char.ofNat b
+    isAlpha c || isDigit c || "_.-~/:?#[]@!$&'()*+,;=%".toList.contains c)
+
+def hexUpper (n : Nat) : Char := if n < 10 then Char.ofNat ('0'.toNat + n) else Char.ofNat ('A'.toNat + n - 10)
+
+def quoteByte (b : Nat) : List Char :=
+  if isUriByte b then [Char.ofNat b] else ['%', hexUpper (b / 16 % 16), hexUpper (b % 16)]
+
+/-- `iri_to_uri(url)` (UTF-8 also for `file:`: the file system encoding of the test environment). -/
+def iriToUri (url : List Char) : List Char :=
+  if url.take 5 == "data:".toList then url
+  else (url.flatMap utf8).flatMap quoteByte
+
 /-- `get_url_attribute(element, 'href', base_url)`: stripped value; absolute → itself, else joined
-with the base URL when there is one, else `None` (error logged).  `iri_to_uri` is the identity on
-the generated URLs. -/
+with the base URL when there is one (`joined` = `iri_to_uri(urljoin(base_url, value))`, computed by the
+harness or by `Url.urljoin`), else `None` (error logged). -/
 def resolveHref (href : Option String) (joined : Option String) : Option String :=
   let value := strip (href.getD "")
   if value == "" then Option.none
-  else if urlIsAbsolute value then some value
+  else if urlIsAbsolute value then some (String.ofList (iriToUri value.toList))
   else joined
 
 /-- One iteration of the loop of `find_stylesheets`. -/
